@@ -163,7 +163,9 @@ def replay(ctx, path):
         print("replay names a broken obligation, not an input: %s" % rp.get("obligation"))
         ok, failures = vlib.proof_stage(ctx, TARGETS, PROPS)
         return 0 if ok else 1
-    vlib.coq_make(["C18/Corr.vo"])
+    vo, src = os.path.join(vlib.COQ, "C18/Corr.vo"), os.path.join(vlib.COQ, "C18/Corr.v")
+    if not os.path.exists(vo) or os.path.getmtime(vo) < os.path.getmtime(src):
+        vlib.coq_make(["C18/Corr.vo"])
     rc, out = vlib.sh([binary, "--replay", path, "--out", ctx.dir], env=vlib.go_env())
     if rc != 0:
         print(out)
